@@ -1,3 +1,907 @@
+//! C15 — the protobuf codec (buffertk + prototk + prototk_derive) round-trips all values and
+//! decodes arbitrary bytes safely.
+//!
+//! Every value is generated once as a dynamic tree (`model::DMsg`) and lowered both to a typed
+//! `#[derive(Message)]` value (`types.rs`) and to an independent reference wire encoder
+//! (`model.rs`, no buffertk/prototk calls).
+//!
+//! Three defects this check found are repaired in /repo (C15-A float wire type, C15-B assert on
+//! bytes after a nested enum's field, C15-C unknown field in a named variant body rejected); their
+//! reproductions live in /verif/regressions/C15 and their triggers are generated and asserted here
+//! like everything else.
+
+mod gens;
+mod model;
+mod types;
+
+use buffertk::{Packable, Unpackable, stack_pack, v64};
+use proptest::prelude::*;
+use serde::{Deserialize, Serialize};
+
+use model::*;
+use types::{decode, encode, schema};
+use vcore::gens::sel;
+use vcore::{Check, Ctx, Outcome, Property, Tier};
+
+const WIRE_TYPES: [u8; 4] = [0, 1, 2, 5];
+
+fn hex(b: &[u8]) -> String {
+    let mut s: String = b.iter().take(96).map(|x| format!("{x:02x}")).collect();
+    if b.len() > 96 {
+        s.push_str(&format!("…({}B)", b.len()));
+    }
+    s
+}
+
+fn first_diff(a: &[u8], b: &[u8]) -> usize {
+    a.iter().zip(b.iter()).position(|(x, y)| x != y).unwrap_or(a.len().min(b.len()))
+}
+
+fn show_val(d: &DMsg) -> String {
+    vcore::truncate(&format!("{d:?}"), 700)
+}
+
+fn stat_labels(o: &mut Outcome, id: MsgId, s: &Stats) {
+    o.label(format!("type:{id:?}"));
+    let mut l = |c: bool, name: &str| {
+        if c {
+            o.label(name)
+        }
+    };
+    l(s.boundary_ints > 0, "has-boundary-int");
+    l(s.negative_varint > 0, "has-negative-10-byte-varint");
+    l(s.nan > 0, "has-nan");
+    l(s.float_special > 0, "has-special-float");
+    l(s.nested > 0, "has-nested");
+    l(s.max_depth >= 2, "depth>=2");
+    l(s.max_depth >= 3, "depth>=3");
+    l(s.empty_nested > 0, "has-empty-nested-message");
+    l(s.rep_empty > 0, "has-empty-repeated");
+    l(s.rep_nonempty > 0, "has-nonempty-repeated");
+    l(s.rep_multi > 0, "has-repeated>=2");
+    l(s.opt_none > 0, "has-none");
+    l(s.opt_some > 0, "has-some");
+    l(s.len_ge_128 > 0, "has-length>=128");
+    l(s.multibyte_tag > 0, "has-multibyte-tag");
+    l(s.enum_unit > 0, "has-enum-unit");
+    l(s.enum_unnamed > 0, "has-enum-unnamed");
+    l(s.enum_named > 0, "has-enum-named");
+    l(s.result_ok > 0, "has-result-ok");
+    l(s.result_err > 0, "has-result-err");
+    l(s.fields == 0, "encodes-to-nothing");
+}
+
+fn rich(s: &Stats) -> bool {
+    s.fields >= 3 && (s.boundary_ints > 0 || s.float_special > 0 || s.nested > 0 || s.rep_nonempty > 0)
+}
+
+///////////////////////////////////////////// round trip ///////////////////////////////////////////
+
+#[derive(Clone, Debug, Serialize, Deserialize)]
+struct RtCase {
+    ty: MsgId,
+    val: DMsg,
+}
+
+struct RoundTrip;
+
+impl Property for RoundTrip {
+    type Case = RtCase;
+    fn name(&self) -> String {
+        "roundtrip-typed".into()
+    }
+    fn cases(&self, tier: Tier) -> u64 {
+        tier.pick(25_000, 500_000)
+    }
+    fn strategy(&self, _: &Ctx) -> BoxedStrategy<RtCase> {
+        gens::typed_value().prop_map(|(ty, val)| RtCase { ty, val }).boxed()
+    }
+    fn run(&self, _: &Ctx, c: &RtCase) -> Outcome {
+        let mut o = Outcome::pass();
+        let re = ref_encode(schema, c.ty, &c.val, None);
+        stat_labels(&mut o, c.ty, &re.stats);
+        o.nontrivial = rich(&re.stats);
+        if re.stats.has_float32 {
+            o.label("has-float32");
+        }
+        let e = encode(c.ty, &c.val);
+        if e.pack_sz != e.bytes.len() {
+            o.fail(format!("pack-sz-mismatch"), format!("pack_sz() = {} but {} bytes were written for {:?} {}", e.pack_sz, e.bytes.len(), c.ty, show_val(&c.val)));
+            return o;
+        }
+        if e.sliced != e.bytes || e.appended != e.bytes || e.streamed != e.bytes || e.stream_ret != e.bytes.len() {
+            o.fail(
+                format!("pack-variants-differ"),
+                format!("to_vec {} / into_slice {} / append_to_vec {} / stream {} (returned {}) differ for {:?} {}", hex(&e.bytes), hex(&e.sliced), hex(&e.appended), hex(&e.streamed), e.stream_ret, c.ty, show_val(&c.val)),
+            );
+            return o;
+        }
+        if e.bytes != re.bytes {
+            let at = first_diff(&e.bytes, &re.bytes);
+            o.fail(
+                format!("wire-mismatch"),
+                format!(
+                    "packed bytes differ from the protobuf wire encoding at offset {at}: got {} want {} for {:?} {}; unpack of the packed bytes gives {}",
+                    hex(&e.bytes[at.saturating_sub(4)..]),
+                    hex(&re.bytes[at.saturating_sub(4)..]),
+                    c.ty,
+                    show_val(&c.val),
+                    vcore::truncate(&format!("{:?}", vcore::guard(|| decode(c.ty, &e.bytes))), 400)
+                ),
+            );
+            return o;
+        }
+        match decode(c.ty, &e.bytes) {
+            Err(err) => o.fail(format!("roundtrip-decode-error"), format!("unpack of the packed bytes {} failed: {err} for {:?} {}", hex(&e.bytes), c.ty, show_val(&c.val))),
+            Ok((v, rem)) => {
+                if v != c.val {
+                    o.fail(format!("roundtrip-mismatch"), format!("unpack(pack(v)) != v: got {} want {} (type {:?}, bytes {})", show_val(&v), show_val(&c.val), c.ty, hex(&e.bytes)));
+                } else if rem != 0 {
+                    o.fail(format!("roundtrip-remainder"), format!("unpack left {rem} of {} bytes unconsumed for {:?}", e.bytes.len(), c.ty));
+                }
+            }
+        }
+        o
+    }
+}
+
+//////////////////////////////////////// unknown-field splice //////////////////////////////////////
+
+#[derive(Clone, Debug, Serialize, Deserialize)]
+struct SpliceSpec {
+    /// which field boundary (selector over all boundaries of the encoding, any depth)
+    at: u16,
+    /// reuse a field number the enclosing message knows, with a different wire type
+    same_num: bool,
+    num_sel: u16,
+    /// index into WIRE_TYPES
+    wt_sel: u8,
+    value: u64,
+    /// extra zero groups on the unknown varint (non-canonical)
+    extra: u8,
+    blob: Vec<u8>,
+    /// 0 = well-formed unknown field; 1..=4 wire types 3,4,6,7; 5..=8 field numbers 0 / reserved
+    invalid: u8,
+}
+
+#[derive(Clone, Debug, Serialize, Deserialize)]
+struct SpliceCase {
+    ty: MsgId,
+    val: DMsg,
+    splices: Vec<SpliceSpec>,
+}
+
+fn unknown_field_bytes(num: u32, wt: u8, s: &SpliceSpec) -> Vec<u8> {
+    let mut out = vec![];
+    ref_varint(((num as u64) << 3) | wt as u64, &mut out);
+    match wt {
+        0 => ref_varint_padded(s.value, (ref_varint_len(s.value) + s.extra as usize).min(10), &mut out),
+        1 => out.extend_from_slice(&s.value.to_le_bytes()),
+        5 => out.extend_from_slice(&(s.value as u32).to_le_bytes()),
+        2 => {
+            ref_varint(s.blob.len() as u64, &mut out);
+            out.extend_from_slice(&s.blob);
+        }
+        _ => {}
+    }
+    out
+}
+
+fn splice_spec() -> impl Strategy<Value = SpliceSpec> {
+    (
+        any::<u16>(),
+        prop::bool::weighted(0.3),
+        any::<u16>(),
+        0u8..4,
+        prop_oneof![Just(0u64), Just(u64::MAX), any::<u64>(), 0u64..300],
+        prop_oneof![3 => Just(0u8), 1 => 1u8..4],
+        prop_oneof![2 => Just(vec![]), 4 => prop::collection::vec(any::<u8>(), 0..10), 1 => prop::collection::vec(any::<u8>(), 126..131)],
+        prop_oneof![17 => Just(0u8), 3 => 1u8..9],
+    )
+        .prop_map(|(at, same_num, num_sel, wt_sel, value, extra, blob, invalid)| SpliceSpec { at, same_num, num_sel, wt_sel, value, extra, blob, invalid })
+}
+
+struct Splice;
+
+impl Property for Splice {
+    type Case = SpliceCase;
+    fn name(&self) -> String {
+        "unknown-field-splice".into()
+    }
+    fn cases(&self, tier: Tier) -> u64 {
+        tier.pick(25_000, 500_000)
+    }
+    fn strategy(&self, _: &Ctx) -> BoxedStrategy<SpliceCase> {
+        (gens::typed_value(), prop::collection::vec(splice_spec(), 1..4))
+            .prop_map(|((ty, val), splices)| SpliceCase { ty, val, splices })
+            .boxed()
+    }
+    fn run(&self, _: &Ctx, c: &SpliceCase) -> Outcome {
+        let mut o = Outcome::pass();
+        let plain = ref_encode(schema, c.ty, &c.val, None);
+        o.label(format!("type:{:?}", c.ty));
+        let n = plain.boundaries.len();
+        let mut plan = Plan::default();
+        let mut applied = 0usize;
+        let mut any_invalid = false;
+        let mut what = vec![];
+        // where the splices went, as part of the signature (struct body: no suffix)
+        let mut territory = "";
+        for s in c.splices.iter() {
+            if n == 0 {
+                break;
+            }
+            let idx = sel(s.at, n);
+            let b = &plain.boundaries[idx];
+            let (num, wt) = match s.invalid {
+                1 => (UNKNOWN_NUMS[sel(s.num_sel, UNKNOWN_NUMS.len())], 3),
+                2 => (UNKNOWN_NUMS[sel(s.num_sel, UNKNOWN_NUMS.len())], 4),
+                3 => (UNKNOWN_NUMS[sel(s.num_sel, UNKNOWN_NUMS.len())], 6),
+                4 => (UNKNOWN_NUMS[sel(s.num_sel, UNKNOWN_NUMS.len())], 7),
+                5 => (0, WIRE_TYPES[(s.wt_sel as usize).min(3)]),
+                6 => (19000, WIRE_TYPES[(s.wt_sel as usize).min(3)]),
+                7 => (19999, WIRE_TYPES[(s.wt_sel as usize).min(3)]),
+                8 => (19000 + sel(s.num_sel, 1000) as u32, WIRE_TYPES[(s.wt_sel as usize).min(3)]),
+                _ => {
+                    if s.same_num && !b.known.is_empty() {
+                        let (num, kwt) = b.known[sel(s.num_sel, b.known.len())];
+                        let others: Vec<u8> = WIRE_TYPES.iter().copied().filter(|w| *w != kwt).collect();
+                        o.label("known-number-other-wire-type");
+                        (num, others[sel((s.wt_sel as u16) << 14, others.len())])
+                    } else {
+                        (UNKNOWN_NUMS[sel(s.num_sel, UNKNOWN_NUMS.len())], WIRE_TYPES[(s.wt_sel as usize).min(3)])
+                    }
+                }
+            };
+            if s.invalid != 0 {
+                any_invalid = true;
+                o.label(match s.invalid {
+                    1 | 2 => "invalid:group-wire-type",
+                    3 | 4 => "invalid:wire-type-6-7",
+                    5 => "invalid:field-number-0",
+                    _ => "invalid:reserved-field-number",
+                });
+            } else {
+                o.label(format!("unknown-wire-type-{wt}"));
+                if wt == 0 && s.extra > 0 {
+                    o.label("unknown-noncanonical-varint");
+                }
+            }
+            o.label(if b.depth == 0 { "at-top-level" } else { "at-nested-level" });
+            match b.kind {
+                BKind::StructBody => {}
+                BKind::NamedBody => {
+                    o.label("in-named-variant-body");
+                    territory = ":named-variant-body";
+                }
+                BKind::OneofTail => {
+                    o.label("after-nested-enum-field");
+                    territory = ":after-nested-enum-field";
+                }
+            }
+            let bytes = unknown_field_bytes(num, wt, s);
+            what.push(format!("field {num} wire type {wt} ({}) at boundary {idx} depth {}", hex(&bytes), b.depth));
+            plan.splices.entry(idx).or_default().extend_from_slice(&bytes);
+            applied += 1;
+        }
+        if applied == 0 {
+            o.label("nothing-spliced");
+            return o;
+        }
+        o.nontrivial = plain.stats.fields >= 2;
+        let spliced = ref_encode(schema, c.ty, &c.val, Some(&plan));
+        let desc = || format!("{} into {:?} {}; bytes {}", what.join(", "), c.ty, show_val(&c.val), hex(&spliced.bytes));
+        match decode(c.ty, &spliced.bytes) {
+            Ok((v, rem)) => {
+                if v != c.val {
+                    let sig = if any_invalid { "malformed-unknown-field-disturbs-known" } else { "unknown-field-disturbs-known" };
+                    o.fail(format!("{sig}{territory}"), format!("decoded {} after splicing {}", show_val(&v), desc()));
+                } else if rem != 0 {
+                    o.fail(format!("unknown-field-remainder{territory}"), format!("{rem} bytes unconsumed after splicing {}", desc()));
+                }
+            }
+            Err(e) => {
+                if any_invalid {
+                    o.label("malformed-unknown-rejected");
+                } else {
+                    o.fail(format!("unknown-field-rejected{territory}"), format!("unpack failed with {e} after splicing {}", desc()));
+                }
+            }
+        }
+        o
+    }
+}
+
+/////////////////////////////////////////// arbitrary bytes ////////////////////////////////////////
+
+#[derive(Clone, Debug, Serialize, Deserialize)]
+enum Edit {
+    Truncate(u16),
+    Flip(u16, u8),
+    Set(u16, u8),
+    Insert(u16, Vec<u8>),
+    Delete(u16, u8),
+    Append(Vec<u8>),
+}
+
+#[derive(Clone, Debug, Serialize, Deserialize)]
+enum Src {
+    Random(Vec<u8>),
+    /// a valid encoding, with some varints re-encoded non-canonically / over-long inside the
+    /// encoder (enclosing lengths stay consistent), then edited as raw bytes
+    Mutated {
+        val: DMsg,
+        /// (varint selector, over-long?, extra groups)
+        tweaks: Vec<(u16, bool, u8)>,
+        edits: Vec<Edit>,
+    },
+}
+
+#[derive(Clone, Debug, Serialize, Deserialize)]
+struct BytesCase {
+    ty: MsgId,
+    src: Src,
+}
+
+fn edit() -> impl Strategy<Value = Edit> {
+    let interesting = prop_oneof![Just(0u8), Just(1), Just(0x7f), Just(0x80), Just(0xff), Just(0x08), Just(0x0a), Just(0x12), any::<u8>()];
+    prop_oneof![
+        3 => any::<u16>().prop_map(Edit::Truncate),
+        3 => (any::<u16>(), 0u8..8).prop_map(|(a, b)| Edit::Flip(a, b)),
+        2 => (any::<u16>(), interesting.clone()).prop_map(|(a, b)| Edit::Set(a, b)),
+        2 => (any::<u16>(), prop::collection::vec(interesting.clone(), 1..6)).prop_map(|(a, b)| Edit::Insert(a, b)),
+        2 => (any::<u16>(), 1u8..6).prop_map(|(a, b)| Edit::Delete(a, b)),
+        1 => prop::collection::vec(interesting, 1..12).prop_map(Edit::Append),
+    ]
+}
+
+fn apply_edits(mut b: Vec<u8>, edits: &[Edit]) -> Vec<u8> {
+    for e in edits {
+        match e {
+            Edit::Truncate(a) => b.truncate(sel(*a, b.len() + 1)),
+            Edit::Flip(a, bit) => {
+                if !b.is_empty() {
+                    let i = sel(*a, b.len());
+                    b[i] ^= 1 << (bit & 7);
+                }
+            }
+            Edit::Set(a, v) => {
+                if !b.is_empty() {
+                    let i = sel(*a, b.len());
+                    b[i] = *v;
+                }
+            }
+            Edit::Insert(a, v) => {
+                let i = sel(*a, b.len() + 1);
+                b.splice(i..i, v.iter().copied());
+            }
+            Edit::Delete(a, n) => {
+                if !b.is_empty() {
+                    let i = sel(*a, b.len());
+                    let j = (i + *n as usize).min(b.len());
+                    b.drain(i..j);
+                }
+            }
+            Edit::Append(v) => b.extend_from_slice(v),
+        }
+    }
+    b
+}
+
+struct AnyBytes;
+
+impl AnyBytes {
+    fn bytes_of(c: &BytesCase) -> (Vec<u8>, usize) {
+        match &c.src {
+            Src::Random(b) => (b.clone(), 0),
+            Src::Mutated { val, tweaks, edits } => {
+                let plain = ref_encode(schema, c.ty, val, None);
+                let mut plan = Plan::default();
+                let nv = plain.varints.len();
+                for (s, over, n) in tweaks {
+                    if nv > 0 {
+                        plan.tweaks.insert(sel(*s, nv), if *over { Tweak::Overlong(*n) } else { Tweak::Pad(1 + *n) });
+                    }
+                }
+                let tweaked = ref_encode(schema, c.ty, val, Some(&plan));
+                (apply_edits(tweaked.bytes, edits), plan.tweaks.len())
+            }
+        }
+    }
+}
+
+impl Property for AnyBytes {
+    type Case = BytesCase;
+    fn name(&self) -> String {
+        "arbitrary-bytes".into()
+    }
+    fn cases(&self, tier: Tier) -> u64 {
+        tier.pick(30_000, 600_000)
+    }
+    fn strategy(&self, _: &Ctx) -> BoxedStrategy<BytesCase> {
+        let interesting = prop_oneof![
+            Just(0u8), Just(1), Just(2), Just(0x7f), Just(0x80), Just(0x81), Just(0xff),
+            // tags of small field numbers with every wire type
+            (1u8..16, 0u8..8).prop_map(|(f, w)| (f << 3) | w),
+            any::<u8>(),
+        ];
+        let random = prop_oneof![
+            2 => prop::collection::vec(any::<u8>(), 0..48),
+            4 => prop::collection::vec(interesting, 0..48),
+        ];
+        let arms: Vec<(u32, BoxedStrategy<BytesCase>)> = gens::type_weights()
+            .into_iter()
+            .map(|(w, id)| {
+                let mutated = (
+                    gens::gen_msg(id, 0),
+                    prop::collection::vec((any::<u16>(), prop::bool::weighted(0.2), 0u8..4), 0..3),
+                    prop::collection::vec(edit(), 0..4),
+                )
+                    .prop_map(move |(val, tweaks, edits)| BytesCase { ty: id, src: Src::Mutated { val, tweaks, edits } });
+                let rnd = random.clone().prop_map(move |b| BytesCase { ty: id, src: Src::Random(b) });
+                (w, prop_oneof![3 => mutated, 2 => rnd].boxed())
+            })
+            .collect();
+        proptest::strategy::Union::new_weighted(arms).boxed()
+    }
+    fn run(&self, _: &Ctx, c: &BytesCase) -> Outcome {
+        let mut o = Outcome::pass();
+        let (bytes, ntweaks) = Self::bytes_of(c);
+        o.label(format!("type:{:?}", c.ty));
+        match &c.src {
+            Src::Random(_) => o.label("random-bytes"),
+            Src::Mutated { edits, .. } => {
+                o.label("mutated-valid-encoding");
+                if ntweaks > 0 {
+                    o.label("with-noncanonical-or-overlong-varint");
+                }
+                if edits.iter().any(|e| matches!(e, Edit::Truncate(_))) {
+                    o.label("truncated");
+                }
+                if edits.is_empty() && ntweaks == 0 {
+                    o.label("unmodified");
+                }
+            }
+        }
+        if oneof_tail_trigger(schema, c.ty, &bytes) {
+            // an enum/Result-typed message field with bytes after its first field (regression C15-B)
+            o.label("bytes-after-nested-enum-field");
+        }
+        o.nontrivial = bytes.len() >= 2;
+        // a panic here is caught by the framework and reported as panic@<file>:<line>
+        match decode(c.ty, &bytes) {
+            Err(_) => o.label("decode-error"),
+            Ok((v, _rem)) => {
+                o.label("decode-ok");
+                let mut texts = vec![];
+                err_texts(&v, &mut texts);
+                if !texts.iter().all(|t| types::serror_from_text(t).map(|e| e.to_string()).as_deref() == Some(*t)) {
+                    // handled's printer/parser do not round-trip this error text: not a codec matter
+                    o.label("decoded-error-text-not-reparsable");
+                    return o;
+                }
+                // a successfully decoded value must itself round-trip
+                let e = encode(c.ty, &v);
+                if e.pack_sz != e.bytes.len() {
+                    o.fail("decoded-pack-sz-mismatch", format!("value decoded from {} has pack_sz {} but packs to {} bytes", hex(&bytes), e.pack_sz, e.bytes.len()));
+                    return o;
+                }
+                match decode(c.ty, &e.bytes) {
+                    Ok((v2, 0)) if v2 == v => {}
+                    other => o.fail(
+                        "decoded-value-does-not-roundtrip",
+                        format!("bytes {} decode as {:?} to {}, which packs to {} and decodes to {}", hex(&bytes), c.ty, show_val(&v), hex(&e.bytes), vcore::truncate(&format!("{other:?}"), 500)),
+                    ),
+                }
+            }
+        }
+        o
+    }
+}
+
+////////////////////////////////////////////// varints /////////////////////////////////////////////
+
+#[derive(Clone, Debug, Serialize, Deserialize)]
+struct VarintCase {
+    /// seven-bit groups, least significant first, 1..=10 of them
+    groups: Vec<u8>,
+    /// bytes following the varint in the buffer
+    pad: Vec<u8>,
+    /// a value for pack / conversions
+    value: u64,
+}
+
+fn v64_unpack(b: &[u8]) -> Result<(u64, usize), String> {
+    match <v64 as Unpackable>::unpack(b) {
+        Ok((v, rem)) => Ok((v.into(), rem.len())),
+        Err(e) => Err(format!("{e:?}")),
+    }
+}
+
+struct Varints15;
+
+impl Property for Varints15 {
+    type Case = VarintCase;
+    fn name(&self) -> String {
+        "varint-paths".into()
+    }
+    fn cases(&self, tier: Tier) -> u64 {
+        tier.pick(60_000, 1_200_000)
+    }
+    fn strategy(&self, _: &Ctx) -> BoxedStrategy<VarintCase> {
+        let group = prop_oneof![3 => Just(0u8), 2 => Just(1u8), 2 => Just(0x7fu8), 1 => Just(0x40u8), 3 => 0u8..0x80];
+        let pad_byte = prop_oneof![Just(0u8), Just(0x80u8), Just(0xffu8), Just(0x7fu8), any::<u8>()];
+        let value = prop_oneof![
+            6 => (0u32..64, 0u8..3).prop_map(|(k, d)| {
+                let base = 1u64 << k;
+                match d { 0 => base.wrapping_sub(1), 1 => base, _ => base.wrapping_add(1) }
+            }),
+            // exactly the 7-bit length boundaries
+            3 => (1u32..10, 0u8..3).prop_map(|(k, d)| {
+                let base = 1u64 << (7 * k);
+                match d { 0 => base - 1, 1 => base, _ => base + 1 }
+            }),
+            1 => Just(u64::MAX),
+            1 => Just(0u64),
+            2 => any::<u64>(),
+        ];
+        ((1usize..=10).prop_flat_map(move |n| prop::collection::vec(group.clone(), n)), prop::collection::vec(pad_byte, 0..14), value)
+            .prop_map(|(groups, pad, value)| VarintCase { groups, pad, value })
+            .boxed()
+    }
+    fn run(&self, _: &Ctx, c: &VarintCase) -> Outcome {
+        let mut o = Outcome::pass();
+        o.nontrivial = true;
+        let n = c.groups.len();
+        let enc: Vec<u8> = c.groups.iter().enumerate().map(|(i, g)| if i + 1 < n { g | 0x80 } else { g & 0x7f }).collect();
+        let wide: u128 = c.groups.iter().enumerate().fold(0u128, |a, (i, g)| a | (((*g & 0x7f) as u128) << (7 * i)));
+        let overflow = wide > u64::MAX as u128;
+        let want = wide as u64;
+        let canonical = n == 1 || c.groups[n - 1] & 0x7f != 0;
+        o.label(format!("len-{n}"));
+        o.label(if canonical { "canonical" } else { "non-canonical" });
+        if overflow {
+            o.label("tenth-byte-overflows-64-bits");
+        }
+        // buffers: exactly the varint; varint + pad (fast path iff >= 10 bytes); varint + pad cut
+        // to fewer than 10 bytes (slow path with a remainder); varint + pad + filler >= 10 bytes
+        let mut padded = enc.clone();
+        padded.extend_from_slice(&c.pad);
+        let mut long = padded.clone();
+        while long.len() < 10 {
+            long.push(0xff);
+        }
+        let mut short = padded.clone();
+        short.truncate(9.max(n).min(padded.len()));
+        let bufs: [(&str, &[u8]); 4] = [("exact", &enc), ("padded", &padded), ("fast", &long), ("short", &short)];
+        let mut results = vec![];
+        for (name, buf) in bufs.iter() {
+            let path = if buf.len() >= 10 { "fast" } else { "slow" };
+            o.label(format!("path-{path}"));
+            let r = v64_unpack(buf);
+            if !overflow {
+                match &r {
+                    Ok((v, rem)) if *v == want && *rem == buf.len() - n => {}
+                    other => {
+                        o.fail(
+                            format!("varint-{path}-path-wrong"),
+                            format!("v64::unpack({}) [{name} buffer, {path} path] = {other:?}, want value {want} with {} bytes left", hex(buf), buf.len() - n),
+                        );
+                        return o;
+                    }
+                }
+            } else if let Ok((v, rem)) = &r {
+                // the docs are silent on a tenth byte above 1: only require a sane result
+                if (*v ^ want) << 1 != 0 || *rem != buf.len() - n {
+                    o.fail("varint-overflow-result-inconsistent", format!("v64::unpack({}) = {r:?}; low 63 bits / remainder do not match the encoding", hex(buf)));
+                    return o;
+                }
+            }
+            results.push(r.map(|x| x.0));
+        }
+        if results.iter().any(|r| r.is_ok() != results[0].is_ok() || r.as_ref().ok() != results[0].as_ref().ok()) {
+            o.fail("varint-fast-slow-disagree", format!("decoders disagree on {}: {results:?}", hex(&enc)));
+            return o;
+        }
+        // an unterminated varint is an error on both paths
+        let unterminated: Vec<u8> = c.groups.iter().map(|g| g | 0x80).collect();
+        if n < 10 {
+            if let Ok(r) = v64_unpack(&unterminated) {
+                o.fail("varint-unterminated-accepted", format!("v64::unpack({}) = {r:?} although every byte has the continuation bit", hex(&unterminated)));
+                return o;
+            }
+        }
+        let mut eleven = unterminated.clone();
+        while eleven.len() < 11 {
+            eleven.push(0x80);
+        }
+        eleven.extend_from_slice(&c.pad);
+        if let Ok(r) = v64_unpack(&eleven) {
+            o.fail("varint-overlong-accepted", format!("v64::unpack({}) = {r:?} although the first eleven bytes all have the continuation bit", hex(&eleven)));
+            return o;
+        }
+        if v64_unpack(&[]).is_ok() {
+            o.fail("varint-empty-accepted", "v64::unpack of an empty buffer succeeded".to_string());
+            return o;
+        }
+        // pack
+        let x = c.value;
+        let v = v64::from(x);
+        let mut want_bytes = vec![];
+        ref_varint(x, &mut want_bytes);
+        let got = stack_pack(v).to_vec();
+        if v.pack_sz() != want_bytes.len() || got != want_bytes {
+            o.fail("varint-pack-wrong", format!("v64({x}) packs to {} (pack_sz {}), want {}", hex(&got), v.pack_sz(), hex(&want_bytes)));
+            return o;
+        }
+        let mut again = got.clone();
+        for tail in [&[][..], &c.pad[..], &[0xffu8; 10][..]] {
+            again.truncate(got.len());
+            again.extend_from_slice(tail);
+            if v64_unpack(&again) != Ok((x, tail.len())) {
+                o.fail("varint-pack-unpack", format!("v64({x}) -> {} -> {:?}", hex(&again), v64_unpack(&again)));
+                return o;
+            }
+        }
+        if ref_varint_len(x) != ref_varint_len(x.wrapping_add(1)) || ref_varint_len(x) != ref_varint_len(x.wrapping_sub(1)) {
+            o.label("pack-at-7-bit-boundary");
+        }
+        // narrowing conversions used by the 32-bit field types
+        let as_u32: Result<u32, _> = v.try_into();
+        if as_u32.is_ok() != (x <= u32::MAX as u64) || as_u32.as_ref().ok().map(|y| *y as u64 != x).unwrap_or(false) {
+            o.fail("varint-try-into-u32", format!("v64({x}).try_into::<u32>() = {as_u32:?}"));
+            return o;
+        }
+        let as_i32: Result<i32, _> = v.try_into();
+        let fits = (x as i64) >= i32::MIN as i64 && (x as i64) <= i32::MAX as i64;
+        if as_i32.is_ok() != fits || as_i32.as_ref().ok().map(|y| *y as i64 != x as i64).unwrap_or(false) {
+            o.fail("varint-try-into-i32", format!("v64({x}).try_into::<i32>() = {as_i32:?}"));
+            return o;
+        }
+        // zig-zag against the documented formula
+        let s = x as i64;
+        if prototk::zigzag(s) != ref_zigzag(s) || prototk::unzigzag(x) != ref_unzigzag(x) || prototk::unzigzag(prototk::zigzag(s)) != s || prototk::zigzag(prototk::unzigzag(x)) != x {
+            o.fail(
+                "zigzag-wrong",
+                format!(
+                    "zigzag({s}) = {} (want {}), unzigzag({x}) = {} (want {}), unzigzag(zigzag({s})) = {}, zigzag(unzigzag({x})) = {}",
+                    prototk::zigzag(s),
+                    ref_zigzag(s),
+                    prototk::unzigzag(x),
+                    ref_unzigzag(x),
+                    prototk::unzigzag(prototk::zigzag(s)),
+                    prototk::zigzag(prototk::unzigzag(x))
+                ),
+            );
+        }
+        o
+    }
+}
+
+//////////////////////////////////////// tags and FieldIterator ////////////////////////////////////
+
+#[derive(Clone, Debug, Serialize, Deserialize)]
+struct RawSpec {
+    /// field number (may be 0, reserved, or >= 2^29)
+    num: u64,
+    /// wire type 0..8
+    wt: u8,
+    value: u64,
+    /// extra zero groups: (tag, length, value) varints
+    pad: (u8, u8, u8),
+    /// content of a length-delimited field (or bytes following a tag with an invalid wire type)
+    blob: Vec<u8>,
+}
+
+#[derive(Clone, Debug, Serialize, Deserialize)]
+struct IterCase {
+    fields: Vec<RawSpec>,
+    cut: Option<u16>,
+}
+
+fn field_number_valid(n: u64) -> bool {
+    (1..=(1u64 << 29) - 1).contains(&n) && !(19000..=19999).contains(&n)
+}
+
+fn raw_field_bytes(s: &RawSpec) -> Vec<u8> {
+    let mut out = vec![];
+    let tag = (s.num << 3) | s.wt as u64;
+    ref_varint_padded(tag, (ref_varint_len(tag) + s.pad.0 as usize).min(10), &mut out);
+    match s.wt {
+        0 => ref_varint_padded(s.value, (ref_varint_len(s.value) + s.pad.2 as usize).min(10), &mut out),
+        1 => out.extend_from_slice(&s.value.to_le_bytes()),
+        5 => out.extend_from_slice(&(s.value as u32).to_le_bytes()),
+        2 => {
+            let n = s.blob.len() as u64;
+            ref_varint_padded(n, (ref_varint_len(n) + s.pad.1 as usize).min(10), &mut out);
+            out.extend_from_slice(&s.blob);
+        }
+        _ => out.extend_from_slice(&s.blob),
+    }
+    out
+}
+
+struct TagsAndIterator;
+
+impl Property for TagsAndIterator {
+    type Case = IterCase;
+    fn name(&self) -> String {
+        "tag-and-field-iterator".into()
+    }
+    fn cases(&self, tier: Tier) -> u64 {
+        tier.pick(40_000, 800_000)
+    }
+    fn strategy(&self, _: &Ctx) -> BoxedStrategy<IterCase> {
+        let num = prop_oneof![
+            12 => prop::sample::select(vec![1u64, 2, 15, 16, 2047, 2048, 18999, 20000, 262143, 262144, 33554431, 33554432, (1 << 29) - 1]),
+            4 => (1u64..(1 << 29)).prop_filter_map("reserved", |n| if field_number_valid(n) { Some(n) } else { None }),
+            1 => Just(0u64),
+            2 => prop::sample::select(vec![19000u64, 19001, 19500, 19999]),
+            1 => prop::sample::select(vec![1u64 << 29, (1 << 29) + 5, 1 << 32, (1 << 61) - 1]),
+        ];
+        let wt = prop_oneof![12 => prop::sample::select(WIRE_TYPES.to_vec()), 1 => prop::sample::select(vec![3u8, 4, 6, 7])];
+        let pad = (prop_oneof![5 => Just(0u8), 1 => 1u8..4], prop_oneof![5 => Just(0u8), 1 => 1u8..4], prop_oneof![4 => Just(0u8), 1 => 1u8..4]);
+        let value = prop_oneof![Just(0u64), Just(127u64), Just(128u64), Just(u64::MAX), any::<u64>()];
+        let blob = prop_oneof![2 => Just(vec![]), 5 => prop::collection::vec(any::<u8>(), 0..8), 1 => prop::collection::vec(any::<u8>(), 126..130)];
+        let spec = (num, wt, value, pad, blob).prop_map(|(num, wt, value, pad, blob)| RawSpec { num, wt, value, pad, blob });
+        (prop::collection::vec(spec, 0..7), prop::option::weighted(0.3, any::<u16>()))
+            .prop_map(|(fields, cut)| IterCase { fields, cut })
+            .boxed()
+    }
+    fn run(&self, _: &Ctx, c: &IterCase) -> Outcome {
+        use prototk::{FieldIterator, FieldNumber, Tag, WireType};
+        let mut o = Outcome::pass();
+        o.nontrivial = c.fields.len() >= 2;
+        // --- Tag / FieldNumber / WireType in isolation
+        for s in c.fields.iter() {
+            let tag = (s.num << 3) | s.wt as u64;
+            let tag_ok = s.num < (1 << 29) && field_number_valid(s.num) && WIRE_TYPES.contains(&s.wt);
+            let mut tb = vec![];
+            ref_varint(tag, &mut tb);
+            let tl = tb.len();
+            tb.extend_from_slice(&s.blob);
+            let got = <Tag as Unpackable>::unpack(&tb).map(|(t, rem)| (t.field_number.get() as u64, t.wire_type.tag_bits() as u8, rem.len()));
+            match (&got, tag_ok) {
+                (Ok((n, w, rem)), true) if *n == s.num && *w == s.wt && *rem == tb.len() - tl => o.label("tag-valid"),
+                (Err(_), false) => o.label(if !WIRE_TYPES.contains(&s.wt) { "tag-bad-wire-type" } else if s.num >= 1 << 29 { "tag-too-large" } else { "tag-bad-field-number" }),
+                _ => {
+                    o.fail("tag-unpack-wrong", format!("Tag::unpack({}) for field number {} wire type {} = {got:?}; a valid tag is expected to be {tag_ok}", hex(&tb), s.num, s.wt));
+                    return o;
+                }
+            }
+            if s.num <= u32::MAX as u64 {
+                let fnum = FieldNumber::new(s.num as u32);
+                if fnum.is_ok() != field_number_valid(s.num) || FieldNumber::is_valid(s.num as u32) != field_number_valid(s.num) {
+                    o.fail("field-number-validity", format!("FieldNumber::new({}) = {fnum:?}", s.num));
+                    return o;
+                }
+                if let (Ok(f), Ok(w)) = (fnum, WireType::new(s.wt as u32)) {
+                    let t = Tag { field_number: f, wire_type: w };
+                    let packed = stack_pack(t).to_vec();
+                    if packed != tb[..tl] || t.pack_sz() != tl {
+                        o.fail("tag-pack-wrong", format!("Tag({}, {}) packs to {} (pack_sz {}), want {}", s.num, s.wt, hex(&packed), t.pack_sz(), hex(&tb[..tl])));
+                        return o;
+                    }
+                }
+            }
+            if WireType::new(s.wt as u32).is_ok() != WIRE_TYPES.contains(&s.wt) {
+                o.fail("wire-type-validity", format!("WireType::new({}) = {:?}", s.wt, WireType::new(s.wt as u32)));
+                return o;
+            }
+        }
+        // --- FieldIterator against the independent walker
+        let mut buf = vec![];
+        for s in c.fields.iter() {
+            buf.extend_from_slice(&raw_field_bytes(s));
+        }
+        if let Some(cut) = c.cut {
+            buf.truncate(sel(cut, buf.len() + 1));
+            o.label("cut");
+        }
+        let mut want: Vec<(u64, u8, usize, usize)> = vec![]; // num, wt, payload offset, payload len
+        let mut off = 0;
+        while off < buf.len() {
+            let Some((f, used)) = ref_read_field(&buf[off..]) else { break };
+            if !field_number_valid(f.num) {
+                break;
+            }
+            let start = off + used - f.payload.len();
+            want.push((f.num, f.wt, start, f.payload.len()));
+            off += used;
+        }
+        let want_err = off < buf.len();
+        let mut err = None;
+        let mut got: Vec<(u64, u8, usize, usize)> = vec![];
+        let remain;
+        {
+            let mut it = FieldIterator::new(&buf, &mut err);
+            for (tag, slice) in it.by_ref() {
+                let start = slice.as_ptr() as usize - buf.as_ptr() as usize;
+                got.push((tag.field_number.get() as u64, tag.wire_type.tag_bits() as u8, start, slice.len()));
+            }
+            remain = it.remain().len();
+        }
+        o.label(if want_err { "iterator-stops-with-error" } else { "iterator-runs-to-end" });
+        // a non-canonical varint is handed out shortened to its canonical length (the consumer
+        // then rejects it); tolerate that, but nothing else
+        let mut shortened = false;
+        let same = got.len() == want.len()
+            && got.iter().zip(want.iter()).all(|(g, w)| {
+                if g == w {
+                    return true;
+                }
+                let shorter = g.0 == w.0 && g.1 == w.1 && g.2 == w.2 && g.3 < w.3 && (w.1 == 0 || w.1 == 2);
+                shortened |= shorter;
+                shorter
+            });
+        if shortened {
+            o.label("noncanonical-varint-slice-shortened");
+        }
+        if !same || err.is_some() != want_err || (!want_err && remain != 0) {
+            o.fail(
+                "field-iterator-differs",
+                format!("FieldIterator over {} yields (num, wire type, offset, len) {got:?} err {err:?} remain {remain}; the reference walker yields {want:?} and error = {want_err}", hex(&buf)),
+            );
+        }
+        o
+    }
+}
+
 fn main() {
-    vcore::main_with(vec![], &[]);
+    let check = Check::new(
+        "C15",
+        "exploration",
+        "proptest: a value of one of 15 derived message types (all scalar field types, fixed-size bytes, strings, optional, repeated, nested to depth 4, recursive, enums with unit/unnamed/named variants, Result; integers on 2^k-1/2^k/2^k+1 and their negations, floats on special values and NaN payloads, lengths on 127/128 and 16383/16384) is generated once as a dynamic tree and lowered to the typed value and to an independent wire encoder. Parts: round trip (pack_sz = length, bytes = reference wire encoding, unpack = value bitwise); unknown fields of every wire type (and malformed ones) spliced at field boundaries of any depth; random bytes and structure-aware mutations of valid encodings (non-canonical/over-long varints inside consistent lengths, truncation, bit flips, insert/delete); every 1..10-byte varint on the exact-length (slow) and padded (fast) decoder; tags and FieldIterator against an independent wire walker. Non-trivial: round trip - >= 3 encoded fields and a boundary integer, special float, nested message or non-empty repeated field; splice - >= 1 field spliced into a value with >= 2 encoded fields; bytes - >= 2 input bytes; varint - every case; iterator - >= 2 fields. Distinct by structural hash of the case.",
+    )
+    .assume("fields are written in declaration order, zero/empty values are always written, repeated scalars are not packed, a unit enum variant is an empty length-delimited field: legal protobuf encodings chosen by prototk_derive, mirrored by the reference encoder")
+    .assume("wire types 3, 4, 6, 7 and field numbers 0 / 19000..19999 / >= 2^29 are documented as rejected; for those only 'no panic, and Ok implies the known fields are undisturbed' is asserted on messages (the rejection itself is asserted on Tag::unpack)")
+    .assume("a ten-byte varint whose tenth byte exceeds 1 is undocumented: only agreement between decoders, the low 63 bits and the remainder are asserted")
+    .assume("a non-canonical varint in a field the reader knows is rejected (FieldIterator hands out the canonical-length prefix); the property allows value-or-error, so this is labelled, not asserted")
+    .assume("an SError inside Result packs as its handled display text; only texts that handled itself re-parses identically are used, the text is treated as opaque by the reference encoder")
+    .assume("bytes after the variant field of a nested enum / Result: well-formed unknown fields must be skipped (decode Ok, equal); malformed ones may be rejected")
+    .pbt(RoundTrip)
+    .pbt(Splice)
+    .pbt(AnyBytes)
+    .pbt(Varints15)
+    .pbt(TagsAndIterator);
+    vcore::main_with(vec![check], &[("seed-corpus", seed_corpus), ("dump-bytes", dump_bytes)]);
+}
+
+/// `c15 dump-bytes <replay.json>`: print the input bytes of an arbitrary-bytes replay case.
+fn dump_bytes(args: &[String]) -> i32 {
+    let v: serde_json::Value = serde_json::from_slice(&std::fs::read(&args[0]).expect("read")).expect("json");
+    let c: BytesCase = serde_json::from_value(v["case"].clone()).expect("case");
+    let (bytes, _) = AnyBytes::bytes_of(&c);
+    println!("type {:?}: {}", c.ty, bytes.iter().map(|b| format!("{b:02x}")).collect::<Vec<_>>().join(" "));
+    println!("oneof_tail_trigger = {}", oneof_tail_trigger(schema, c.ty, &bytes));
+    0
+}
+
+/// `c15 seed-corpus <dir> [n]`: write `n` valid reference encodings (deterministic) as a libFuzzer
+/// seed corpus for `c15_decode_any`.
+fn seed_corpus(args: &[String]) -> i32 {
+    use proptest::strategy::ValueTree;
+    use proptest::test_runner::{Config, RngSeed, TestRunner};
+    let Some(dir) = args.first() else {
+        eprintln!("usage: seed-corpus <dir> [n]");
+        return 2;
+    };
+    let n: usize = args.get(1).and_then(|s| s.parse().ok()).unwrap_or(64);
+    std::fs::create_dir_all(dir).expect("create corpus dir");
+    let mut runner = TestRunner::new(Config { rng_seed: RngSeed::Fixed(15), failure_persistence: None, ..Config::default() });
+    let strat = gens::typed_value();
+    let mut written = 0;
+    let mut tries = 0;
+    while written < n && tries < 100 * n {
+        tries += 1;
+        let (ty, val) = strat.new_tree(&mut runner).unwrap().current();
+        let bytes = ref_encode(schema, ty, &val, None).bytes;
+        if bytes.is_empty() || bytes.len() > 200 {
+            continue;
+        }
+        std::fs::write(format!("{dir}/seed-{written:03}-{ty:?}"), &bytes).expect("write seed");
+        written += 1;
+    }
+    println!("wrote {written} seeds to {dir}");
+    0
 }
